@@ -1505,7 +1505,7 @@ def driver_stream_layer(ctx, rid):
         ok = len(sg) == 2 and sg[0] == "return Option::None" and re.match(r"^return Option::Some\(streams::Stream\(%s,<impl Stream<%s, Quic>>::%s\(\)\)\)$" % (inner, role, nm), sg[1]) is not None
         n += 1
         ctx.check(rid, "driver stream layer forwarder", ok, "driver %s::%s does not wrap exactly the stream quinn returned (or None on failure): %s" % (mod, nm, sg), where(f), key="driver stream layer|%s::%s" % (mod, nm))
-    ctx.floor(rid, "driver stream layer functions", n, 35)
+    ctx.floor(rid, "driver stream layer functions", n, 30)
 
 # ------------------------------------------------------------------ public accept wrappers delegate before anything else
 
